@@ -1,7 +1,7 @@
-\* C09: hitsInCurrentPage modelled literally (trim only when Size > 0).  EXPECTED to violate
-\* PageEqSize0 (Size = 0, From > 0): the model-side reproduction of known finding
-\* alias-size0-from-positive-returns-hits.  PageEqSizePos is checked in the same model by
-\* Alias_mc_size0quirk_pos.cfg and must hold.
+\* C09: hitsInCurrentPage as it was before /repo 22240fd (trim only when Size > 0).  EXPECTED to
+\* violate PageEqSize0 (Size = 0, From > 0): the model-side reproduction of the (repaired) finding
+\* alias-size0-from-positive-returns-hits; shows that the invariant has teeth.  PageEqSizePos is
+\* checked in the same model by Alias_mc_size0quirk_pos.cfg and must hold.
 SPECIFICATION Spec
 CONSTANTS
   NDocs = 3
